@@ -1,5 +1,5 @@
 """Checks that are not count campaigns: arithmetic (C12, C13), printing (C14)."""
-import random, collections, itertools, time, fractions
+import os, random, collections, itertools, time, fractions
 from fractions import Fraction
 import common, gen, campaign, findings, implrun, implops
 from props import prop, rng_for, budget, THEOREMS, first_diff, describe
@@ -478,6 +478,13 @@ def _figures(item):
         if before != after:
             return ('impure', '')
         rows = d.split('\n')[1:]
+        # the report block of each action (the text between its "Action:" line and the next one)
+        blocks = {}
+        parts = rep.split('Action: ')[1:]
+        shown = [a for a in rec['actions'] if a['tag'] not in ('log', 'round')]
+        if len(parts) == len(shown):
+            for a, blk in zip(shown, parts):
+                blocks[id(a)] = blk
         k = 0
         for a in rec['actions']:
             row = rows[k].split('\t'); k += 1
@@ -485,12 +492,13 @@ def _figures(item):
                 continue
             if row[2] != str(a['quota']):
                 return ('bad-figure', 'dump quota %s vs %s' % (row[2], str(a['quota'])))
+            blk = blocks.get(id(a), rep)
             for cid, c in a['cstate'].items():
                 if 'vote' in c and str(c['vote']) not in row and E.rule.method != 'qpq':
                     return ('bad-figure', 'dump row lacks vote %s' % str(c['vote']))
-                if 'vote' in c and E.rule.method == 'wigm' and ('(%s)' % str(c['vote'])) not in rep:
+                if 'vote' in c and E.rule.method == 'wigm' and ('(%s)' % str(c['vote'])) not in blk:
                     if a['tag'] in ('begin', 'count', 'elect', 'defeat', 'transfer', 'end'):
-                        return ('bad-figure', 'report lacks (%s)' % str(c['vote']))
+                        return ('bad-figure', 'report block "%s" lacks (%s)' % (a['msg'][:30], str(c['vote'])))
         import json
         J = json.loads(js)
         ja = [x for x in J['actions']]
@@ -515,6 +523,18 @@ def figures_in_renderings(run, rng):
         if o['rule'] in ('wigm', 'meek', 'warren') and rng.random() < 0.5 and o.get('arithmetic') != 'integer':
             o = dict(o); o['display'] = rng.choice([0, 1, 2, 3, 5, 8, 12])
         items.append((p, o))
+    # guard digits on display: tallies that are zero at the declared precision but not in the stored value
+    for fam, p, o in campaign.make_cases(rng, budget(run, 200, 4000), ['wigm']):
+        pp = rng.choice([0, 1, 2]); gg = rng.choice([3, 4, 5])
+        items.append((p, dict(rule='wigm', arithmetic='guarded', precision=pp, guard=gg, display=pp + gg,
+                              defeat_batch=o.get('defeat_batch', 'none'))))
+    # minimised past failures of the renderings first (tallies that are non-zero only in the guard digits, negative tallies, ...)
+    try:
+        import json as _json
+        for c in _json.load(open(os.path.join(common.VERIF, 'corpus', 'render_cases.json'))):
+            items.insert(0, (gen.unblt(c['blt']), c['options']))
+    except (OSError, ValueError):
+        pass
     res = common.pmap(_figures, items, limit=20.0)
     nb = 0
     for (p, o), r in zip(items, res):
